@@ -58,6 +58,8 @@ def worker(chunk):
                     # a caller may keep its request in one dict and pass that very dict to several runs
                     if ik is None or rng.random() < 0.6:
                         ik = {'x': rng.choice(['v', 'w', '', 'u%d' % r])}
+                        if spec['nodes'][spec['input']].get('generic_input') and rng.random() < 0.5:
+                            ik['opt'] = 'o%d' % r       # an optional input key: given in some runs, absent in others
                         pristine = dict(ik)       # what the caller wrote into it
                     ik0 = dict(ik)
                     # the pool registry is the one piece of state outside the chart: shut the pool down (or bring it back)
